@@ -431,6 +431,10 @@ func Eval(vm *ds.Context, src string, rerun bool) Obs {
 			if o.Panic == "" && err != nil && IsSyntaxError(err) {
 				o.Err, o.ParseErr = err.Error(), true
 				step(&o, "GetAsmText", func() { _ = vm.GetAsmText() })
+				// a host that does not look at the error goes on as usual: none of this may panic
+				step(&o, "RunAfterParsed after a rejected input", func() { _ = vm.RunAfterParsed() })
+				step(&o, "GetDetailText after a rejected input", func() { _ = vm.GetDetailText() })
+				step(&o, "GetAsmText after a rejected input", func() { _ = vm.GetAsmText() })
 				return o
 			}
 		} else {
